@@ -50,6 +50,7 @@ type Comp struct {
 }
 
 type Addr struct {
+	space string // "" = shared heap; "L<n>|" = private components of a non-escaping local allocation
 	kind string // field | elem | cell
 	comp string
 	base string
@@ -63,6 +64,7 @@ type LoopInfo struct {
 	ordinal int
 	mods    map[string]bool
 	freshOnly map[string]bool
+	localOnly map[string]bool
 	localSlices []*ssa.Phi
 	modAll  bool
 	backs   []int // back edge sources
@@ -113,6 +115,7 @@ type VC struct {
 	ghostAppend map[*ssa.Phi]bool
 	replay      []ReplayTerm
 	useRoot     bool
+	localAllocs map[*ssa.Alloc]string // non-escaping struct allocations -> private component space
 	writeRoot   ssa.Value // allocation the current store goes to (nil: unknown / pre-existing memory)
 	nonFresh    map[int]map[string]bool   // block -> comps written at possibly pre-existing references
 	freshRoots  map[int]map[string][]int // block -> comp -> blocks of the allocations written to
@@ -257,9 +260,9 @@ func (vc *VC) rangeFact(x string, t types.Type) string {
 	}
 	switch vc.sortOf(t) {
 	case "Str":
-		return fmt.Sprintf("(and (>= (strlen %s) 0) (<= (strlen %s) 4611686018427387904) (=> (= (strlen %s) 0) (= %s str_empty)))", x, x, x, x)
+		return fmt.Sprintf("(and (>= (strlen %s) 0) (<= (strlen %s) 1152921504606846976) (=> (= (strlen %s) 0) (= %s str_empty)))", x, x, x, x)
 	case "Slice":
-		return fmt.Sprintf("(and (>= (s_off %s) 0) (>= (s_len %s) 0) (>= (s_cap %s) (s_len %s)) (<= (s_cap %s) 4611686018427387904) (<= (s_off %s) 4611686018427387904) (=> (= (s_arr %s) 0) (= (s_cap %s) 0)))", x, x, x, x, x, x, x, x)
+		return fmt.Sprintf("(and (>= (s_arr %s) 0) (>= (s_off %s) 0) (>= (s_len %s) 0) (>= (s_cap %s) (s_len %s)) (<= (s_cap %s) 1152921504606846976) (<= (s_off %s) 1152921504606846976) (=> (= (s_arr %s) 0) (= (s_cap %s) 0)))", x, x, x, x, x, x, x, x, x)
 	}
 	return "true"
 }
@@ -458,16 +461,20 @@ func (vc *VC) structAddr(a *Addr) string {
 	}
 }
 
-func (vc *VC) loadStructAt(h Heap, addr string, t types.Type) string {
+func (vc *VC) loadStructAt(h Heap, addr string, t types.Type, space ...string) string {
+	sp := ""
+	if len(space) > 0 {
+		sp = space[0]
+	}
 	st := t.Underlying().(*types.Struct)
 	s := vc.structSort(t)
 	var fs []string
 	for i := 0; i < st.NumFields(); i++ {
 		f := st.Field(i)
-		ck := fieldComp(t, f)
+		ck := sp + fieldComp(t, f)
 		if isStruct(f.Type()) {
 			vc.comp(ck, "")
-			fs = append(fs, vc.loadStructAt(h, vc.subRef(ck, addr), f.Type()))
+			fs = append(fs, vc.loadStructAt(h, vc.subRef(ck, addr), f.Type(), sp))
 		} else {
 			fs = append(fs, fmt.Sprintf("(select %s %s)", vc.getCompIn(h, ck, vc.fieldSort(f)), addr))
 		}
@@ -478,16 +485,20 @@ func (vc *VC) loadStructAt(h Heap, addr string, t types.Type) string {
 	return fmt.Sprintf("(mk_%s %s)", s, strings.Join(fs, " "))
 }
 
-func (vc *VC) storeStructAt(addr string, t types.Type, val string) {
+func (vc *VC) storeStructAt(addr string, t types.Type, val string, space ...string) {
+	sp := ""
+	if len(space) > 0 {
+		sp = space[0]
+	}
 	st := t.Underlying().(*types.Struct)
 	s := vc.structSort(t)
 	for i := 0; i < st.NumFields(); i++ {
 		f := st.Field(i)
-		ck := fieldComp(t, f)
+		ck := sp + fieldComp(t, f)
 		fv := fmt.Sprintf("(%s_%s %s)", s, mangle(f.Name()), val)
 		if isStruct(f.Type()) {
 			vc.comp(ck, "")
-			vc.storeStructAt(vc.subRef(ck, addr), f.Type(), fv)
+			vc.storeStructAt(vc.subRef(ck, addr), f.Type(), fv, sp)
 		} else {
 			vc.setComp(ck, vc.fieldSort(f), fmt.Sprintf("(store %s %s %s)", vc.getComp(ck, vc.fieldSort(f)), addr, fv))
 		}
@@ -496,7 +507,7 @@ func (vc *VC) storeStructAt(addr string, t types.Type, val string) {
 
 func (vc *VC) loadAddrIn(h Heap, a *Addr) string {
 	if isStruct(a.typ) {
-		return vc.loadStructAt(h, vc.structAddr(a), a.typ)
+		return vc.loadStructAt(h, vc.structAddr(a), a.typ, a.space)
 	}
 	vs := vc.sortOf(a.typ)
 	switch a.kind {
@@ -509,7 +520,7 @@ func (vc *VC) loadAddrIn(h Heap, a *Addr) string {
 
 func (vc *VC) storeAddr(a *Addr, val string) {
 	if isStruct(a.typ) {
-		vc.storeStructAt(vc.structAddr(a), a.typ, val)
+		vc.storeStructAt(vc.structAddr(a), a.typ, val, a.space)
 		return
 	}
 	vs := vc.sortOf(a.typ)
@@ -541,9 +552,9 @@ func (vc *VC) pointeeAddr(p string, pt types.Type) *Addr {
 }
 
 // zeroInit stores the zero value at a fresh address of type t.
-func (vc *VC) zeroInit(r string, t types.Type) {
+func (vc *VC) zeroInit(r string, t types.Type, space ...string) {
 	if isStruct(t) {
-		vc.storeStructAt(r, t, vc.zero(t))
+		vc.storeStructAt(r, t, vc.zero(t), space...)
 		return
 	}
 	if at, ok := t.Underlying().(*types.Array); ok {
@@ -743,4 +754,67 @@ func (vc *VC) havocOf(ty types.Type, prefix string) Term {
 		vc.assume(af)
 	}
 	return Term{S: name, Sort: s, T: ty}
+}
+
+// findLocalAllocs: struct-typed allocations whose address never escapes (it is only stored to, loaded from and used
+// as the base of field addresses that are themselves only loaded/stored). Their fields are local variables, not
+// shared memory, and get private heap components.
+func (vc *VC) findLocalAllocs() {
+	vc.localAllocs = map[*ssa.Alloc]string{}
+	var onlyLocalUses func(v ssa.Value, depth int) bool
+	onlyLocalUses = func(v ssa.Value, depth int) bool {
+		refs := v.Referrers()
+		if refs == nil || depth > 4 {
+			return false
+		}
+		for _, r := range *refs {
+			switch u := r.(type) {
+			case *ssa.DebugRef:
+			case *ssa.Store:
+				if u.Addr != v || u.Val == v {
+					return false
+				}
+			case *ssa.UnOp:
+				if u.Op != token.MUL {
+					return false
+				}
+			case *ssa.FieldAddr:
+				if !onlyLocalUses(u, depth+1) {
+					return false
+				}
+			default:
+				return false
+			}
+		}
+		return true
+	}
+	n := 0
+	for _, b := range vc.fn.Blocks {
+		for _, ins := range b.Instrs {
+			al, ok := ins.(*ssa.Alloc)
+			if !ok {
+				continue
+			}
+			if !isStruct(al.Type().Underlying().(*types.Pointer).Elem()) {
+				continue
+			}
+			if onlyLocalUses(al, 0) {
+				n++
+				vc.localAllocs[al] = fmt.Sprintf("L%d|", n)
+			}
+		}
+	}
+}
+
+// spaceOf: the private component space an address belongs to ("" for shared memory).
+func (vc *VC) spaceOf(v ssa.Value) string {
+	switch x := v.(type) {
+	case *ssa.Alloc:
+		return vc.localAllocs[x]
+	case *ssa.FieldAddr:
+		if a := vc.addrs[x]; a != nil {
+			return a.space
+		}
+	}
+	return ""
 }
